@@ -29,3 +29,28 @@ pub mod storage;
 pub mod time;
 pub mod unless;
 pub mod version;
+
+/// Verification seam, compiled only with the `verif_hooks` cargo feature: a thread-local provider
+/// for the random draws that steer behaviour (back-off jitter). Without a provider installed the
+/// real `rand` crate is used, so behaviour is unchanged.
+#[cfg(feature = "verif_hooks")]
+pub mod verif_hooks {
+    use std::cell::Cell;
+
+    thread_local! {
+        static DRAW: Cell<Option<fn() -> u64>> = const { Cell::new(None) };
+    }
+
+    /// Install (or remove) the provider of jitter draws for the current thread.
+    pub fn set_draw_provider(f: Option<fn() -> u64>) {
+        DRAW.with(|d| d.set(f));
+    }
+
+    /// Returns the next draw: from the installed provider, else from `rand`.
+    pub fn draw_u64() -> u64 {
+        match DRAW.with(|d| d.get()) {
+            Some(f) => f(),
+            None => rand::random::<u64>(),
+        }
+    }
+}
